@@ -5,7 +5,7 @@ CONSTANTS
   Genesis = "g"
   Cap = 2
   T = 1
-  MaxClock = 4
+  MaxClock = 6
   Sorted = TRUE
 INVARIANT StoredSound
 INVARIANT CacheCapped
